@@ -51,8 +51,13 @@ def monSsQuote (amp : Nat) (decimals amounts : List Nat) (offerIdx askIdx offer 
   -- value of two offer units at the trade's own average price, in ask units (rounded up)
   let offerUnitsInAsk := 2 * ((gross + offer - 1) / offer)
   let tol := (2 + offerUnitsInAsk) * scale + scale / 100
+  -- finding F-13: on some in-range inputs (dust pools, 4 assets near the skew limit, offers of the
+  -- size of the reserve) the quote misses the stated bound by a small factor; the recorded class is
+  -- "within 16x the bound + 10^-15 of the ask reserve"
+  let tolKnown := 16 * (2 + offerUnitsInAsk) * scale + (amounts.getD askIdx 0) / 1000000000000000 * scale
   firstFail [(gross ≤ amounts.getD askIdx 0, "C19-output-exceeds-reserve"),
-             (gross * scale ≤ exact + tol && exact ≤ gross * scale + tol, "C19-quote-accuracy")]
+             (gross * scale ≤ exact + tolKnown && exact ≤ gross * scale + tolKnown, "C19-quote-accuracy"),
+             (gross * scale ≤ exact + tol && exact ≤ gross * scale + tol, "C19-quote-accuracy-minor")]
 
 /-- C03: the exact invariant after the swap is at least the exact invariant before (compared at
     10^-6 of a highest-precision unit).  When it decreases, the cause is looked up: if the gross
@@ -70,8 +75,9 @@ def monSsSwap (amp : Nat) (decimals before : List Nat) (offerIdx askIdx offer gr
   let maxP := (listMax decimals).getD 0
   let scale := 10 ^ (maxP - decimals.getD askIdx 0) * SS_K
   let exact := exactOutK amp decimals before offerIdx askIdx offer
-  -- 1 unit of rounding up + the C19 bound, or 10^-15 of the output on pools outside C19's range
-  let tolUnits := 3 + 2 * ((gross + offer - 1) / (max offer 1)) + gross / 1000000000000000
+  -- 1 unit of rounding up + the recorded accuracy class of the quote (F-13: 16x the C19 bound +
+  -- 10^-15 of the ask reserve)
+  let tolUnits := 1 + 16 * (2 + 2 * ((gross + offer - 1) / (max offer 1))) + (before.getD askIdx 0) / 1000000000000000
   if gross * scale ≤ exact + tolUnits * scale then some "C03-ss-rounding" else some "C03-ss-invariant"
 
 end MantraDex
